@@ -425,12 +425,20 @@ Definition terminate (st : state) (c : conn) : result * state :=
           match alookup N.eqb c (st_sess st) with
           | Some (KStored i) =>
               match alookup bytes_eqb i (st_stored st) with
-              | Some s => aset bytes_eqb i (Sess (s_subs s) (s_tq s) (s_sq s) None) (st_stored st)
+              | Some s =>
+                  (* release the session only if it is still held by this client *)
+                  if option_eqb N.eqb (s_act s) (Some c)
+                  then aset bytes_eqb i (Sess (s_subs s) (s_tq s) (s_sq s) None) (st_stored st)
+                  else st_stored st
               | None => st_stored st
               end
           | _ => st_stored st
           end in
-        (ROk, St (st_cap st) stored (aremove N.eqb c (st_temps st)) (aremove bytes_eqb id (st_active st))
+        (* remove the saved client, but never the entry of another client with the same id *)
+        let active :=
+          if option_eqb N.eqb (alookup bytes_eqb id (st_active st)) (Some c)
+          then aremove bytes_eqb id (st_active st) else st_active st in
+        (ROk, St (st_cap st) stored (aremove N.eqb c (st_temps st)) active
                  (st_retained st) (st_closing st) (aremove N.eqb c (st_sess st)) (st_cid st) (st_dying st)
                  (st_closed st) (add_n c (st_term st)) (st_pending st))
   end.
